@@ -153,7 +153,7 @@ def _check_idx(zone_idx: int | str) -> str:
     if isinstance(zone_idx, str):
         zone_idx = FA if zone_idx == "HW" else zone_idx
     result: int = zone_idx if isinstance(zone_idx, int) else int(zone_idx, 16)
-    if 0 > result > 15 and result != 0xFA:
+    if not 0 <= result <= 15 and result not in (0xF9, 0xFA, 0xFC):  # zone, or domain
         raise exc.CommandInvalid(f"Invalid value for zone_idx: {result}")
     return f"{result:02X}"
 
